@@ -349,6 +349,11 @@ def array_case(ctx, rng):
         for _ in range(rng.randint(1, 2)):
             t2.insert(rng.randint(0, len(t2)), 1)
         extra.append(tuple(t2))
+    pure = list(shape)
+    for _ in range(rng.randint(1, 2)):
+        pure.insert(rng.randint(0, len(pure)), 1)
+    pure = tuple(pure)
+    extra.append(pure)
     subs = subsizes_of(x)
     consistent = [i for i, (ix, ss) in enumerate(zip(x.indices, subs)) if ss and all(d >= 2 for d in ss) and ix.size_total == int(np.prod(ss))]
     if consistent:
@@ -409,6 +414,14 @@ def array_case(ctx, rng):
         if not np.array_equal(magnitudes(y), mags):
             V("reshape-magnitudes", "multiset of stored magnitudes changed", wit)
             continue
+        if is_extra and tgt == pure and not any(ix.subinfo is not None for ix in x.indices):
+            # only size-one axes were inserted: element for element the same tensor
+            from symv.dense import embed
+
+            ctx.count("array", "pure-insert-dense-compare")
+            if embed(y).shape != tuple(tgt) or not np.array_equal(embed(y), embed(x).reshape(tgt)):
+                V("reshape-insert-changes-values", f"reshape{shape}->{tgt} only inserts size-one axes but the dense values changed", wit)
+                continue
         if is_extra:
             # post-conditions only: the round-trip clause covers merging / dropping targets
             if sparse or ferm:
